@@ -1088,9 +1088,14 @@ func (ctx *RenderContext) evaluateNode(node Node) (interface{}, error) {
 				}
 			}
 
-			// A macro of that name (reached as _self.name()) wins over a function
-			// of the same name, exactly as in a plain name() call
-			if macro, ok := ctx.GetMacro(n.name); ok {
+			// _self.name(): a macro of the template itself, by the same lookup as a
+			// plain name() call (only _self stands for the template: with any other
+			// alias a macro that the library does not have is not looked for here)
+			selfCall := false
+			if v, ok := n.moduleExpr.(*VariableNode); ok && v.name == "_self" {
+				selfCall = true
+			}
+			if macro, ok := ctx.GetMacro(n.name); ok && selfCall {
 				if macroNode, ok := macro.(*MacroNode); ok {
 					return func(w io.Writer) error {
 						return macroNode.CallMacro(w, ctx, args...)
